@@ -70,6 +70,7 @@ class Ctx:
         self.obsname = z3.Function('observed_name' + tag, th.Node, th.Node)      # utils.observed_name: '_<name>_observed' (injective)
         self.calls = []                                                          # python-level record of FnSpec calls on this path
         th.c03 = self
+        th.merge_get = True
         th.node_lit, th.str_lit = self.node_lit, self.str_lit
         self._nlits, self._slits = {}, {}
 
@@ -437,7 +438,10 @@ class NameSeq(nxspec.SNameList):
         return self.elt(_zi(i)).t
 
     def _vc_sorted(self, key=None, reverse=False):
-        return NameSeq.wrap(nxspec.SNameList._vc_sorted(self, key, reverse))
+        r = NameSeq.wrap(nxspec.SNameList._vc_sorted(self, key, reverse))
+        pinv, idx0 = cur().libcalls['sorted'][-1]['pinv'], self.idx        # position in the sorted list = pinv(position in the source list)
+        r.idx = lambda x: pinv(idx0(x))
+        return r
 
     def _vc_tuple(self):
         return NameSeq.wrap(self)
@@ -756,8 +760,8 @@ class Execute(C03Contract):
         OP, OUT = cx.lit('operation'), cx.lit('output')
         out1 = lambda p: nd_val(th, g, h1, p, 'output')
         facts = [('the graph structure is not modified', _same_graph(s)),
-                 ('executed nodes: operation removed, output = apply(operation, call pack)',
-                  th.forall_nodes(lambda x: z3.Implies(ran(x), z3.And(h1.has(g.nattr(x), OUT), z3.Not(h1.has(g.nattr(x), OP)),
+                 ('executed nodes: output = apply(operation, call pack)',
+                  th.forall_nodes(lambda x: z3.Implies(ran(x), z3.And(h1.has(g.nattr(x), OUT),
                                                                      h1.val(g.nattr(x), OUT) == cx.apply(h0.val(g.nattr(x), OP), gh.pk(x))))))]
         for lbl, mk in [(l, f) for l, f in _args_of_q(cx, g, out1, gh)]:
             facts.append(('executed nodes: ' + lbl, mk(ran)))
@@ -913,8 +917,6 @@ class OutputCompile(CompilerContract):
                 ('a node with _operation (and no _output) gets operation = _operation (and no output)',
                  th.forall_nodes(lambda x: z3.Implies(z3.And(sel(x), z3.Not(st_has(th, S, h0, x, '_output'))),
                                                       z3.And(h1.has(d(x), OP), h1.val(d(x), OP) == st_val(th, S, h0, x, '_operation'), z3.Not(h1.has(d(x), OUT)))))),
-                ('nothing else is stored in the compiled data dict',
-                 th.forall_nodes(lambda x: z3.Implies(c1.node(x), th.forall_keys(lambda k: z3.Implies(z3.And(k != OP, k != OUT), z3.Not(h1.has(d(x), k))))))),
                 ('processed nodes have exactly one of _output / _operation',
                  th.forall_nodes(lambda x: z3.Implies(sel(x), st_has(th, S, h0, x, '_output') != st_has(th, S, h0, x, '_operation'))))]
 
@@ -933,8 +935,9 @@ class OutputCompile(CompilerContract):
         th, c1, h1 = s.th, s.C.snap(), s.H.snap()
         vis = l.it.visited
         return self._structure(s) + self._node_facts(s, vis) + [
-            ('unvisited nodes still have an empty data dict',
-             th.forall_nodes(lambda x: z3.Implies(z3.And(c1.node(x), z3.Not(vis(x))), th.forall_keys(lambda k: z3.Not(h1.has(c1.nattr(x), k))))))]
+            ('unvisited nodes have neither operation nor output yet',
+             th.forall_nodes(lambda x: z3.Implies(z3.And(c1.node(x), z3.Not(vis(x))), z3.And(z3.Not(h1.has(c1.nattr(x), th.klit('operation'))),
+                                                                                             z3.Not(h1.has(c1.nattr(x), th.klit('output')))))))]
 
     @property
     def loops(self):
@@ -1068,7 +1071,8 @@ class AncSpec:
             return []
         return [th.forall_nodes(lambda a, x: z3.Implies(E(a, x), R(a, x)), 2),
                 th.forall_nodes(lambda a, b, x: z3.Implies(z3.And(E(a, b), R(b, x)), R(a, x)), 3),
-                th.forall_nodes(lambda a, x: z3.Implies(R(a, x), th.exists_nodes(lambda c: z3.And(E(a, c), z3.Or(c == x, R(c, x))))), 2)]
+                # (the full unfolding `R(a, x) => exists c. E(a, c) and (c = x or R(c, x))` is a matching loop; its non-recursive consequences suffice)
+                th.forall_nodes(lambda a, x: z3.Implies(R(a, x), z3.And(th.exists_nodes(lambda c: E(a, c)), th.exists_nodes(lambda c: E(c, x)))), 2)]
 
 
 def make_nx(cx, specs=()):
@@ -1090,7 +1094,7 @@ def make_nx(cx, specs=()):
             mem = lambda a: A(a)
             vc.assume(th.forall_nodes(lambda a: z3.Implies(st.edge(a, xt), A(a))),
                       th.forall_nodes(lambda a, b: z3.Implies(z3.And(st.edge(b, a), A(a)), A(b)), 2),
-                      th.forall_nodes(lambda a: z3.Implies(A(a), z3.And(st.node(a), th.exists_nodes(lambda c: z3.And(st.edge(a, c), z3.Or(c == xt, A(c))))))))
+                      th.forall_nodes(lambda a: z3.Implies(A(a), z3.And(st.node(a), th.exists_nodes(lambda c: st.edge(a, c))))))
             for sp in specs:        # ancestors is a function of the edge relation: same relation as a spec relation => same answer
                 vc.assume(z3.Implies(th.forall_nodes(lambda u, v: st.edge(u, v) == sp.E(u, v), 2), th.forall_nodes(lambda a: A(a) == sp.rel(a, xt))))
         vc.libcall('nx.ancestors', dict(G=st, x=xt, mem=mem))
@@ -1309,6 +1313,309 @@ class MakeObservedCopy(C03Contract):
         return out
 
 
+class NameAcc(SList):
+    """a python list of node names that the code grows with append(): n, at(i), and the ghost membership / position functions"""
+
+    def __init__(self, n, at, mem, idx):
+        SList.__init__(self, n, lambda i: SNodeName(at(_zi(i))))
+        self.at_, self.mem, self.idx = at, mem, idx
+
+    @classmethod
+    def fresh(cls, name='names'):
+        th = theory()
+        vc = th.vc
+        n = vc.fresh_int(name + '.n', nonneg=True, size=True)
+        at, mem, idx = vc.fresh_fn(name + '.at', IntS, th.Node), vc.fresh_fn(name + '.mem', th.Node, BoolS), vc.fresh_fn(name + '.idx', th.Node, IntS)
+        return cls(n, lambda i: at(i), lambda x: mem(x), lambda x: idx(x))
+
+    @classmethod
+    def of(cls, v):
+        if isinstance(v, NameAcc):
+            return v
+        if isinstance(v, list) and not v:
+            th = theory()
+            nobody = z3.Const('nobody', th.Node)
+            return cls(z3.IntVal(0), lambda i: nobody, lambda x: z3.BoolVal(False), lambda x: z3.IntVal(0))
+        raise OutOfSubset('expected an (empty) list of names, got %r' % (v,))
+
+    def at(self, i):
+        return self.at_(_zi(i))
+
+    def append(self, x):
+        x = nxspec._name_t(x)
+        n, at, mem, idx = self.n, self.at_, self.mem, self.idx
+        self.n = n + 1
+        self.at_ = lambda i: z3.If(i == n, x, at(i))
+        self.elt = lambda i: SNodeName(self.at_(_zi(i)))
+        self.mem = lambda y: z3.Or(y == x, mem(y))
+        self.idx = lambda y: z3.If(y == x, n, idx(y))
+
+    def __contains__(self, x):
+        return bool(SBool(self.mem(nxspec._name_t(x))))
+
+    def ok(self):
+        """the list holds exactly the names with mem (position witness idx)"""
+        th = theory()
+        return z3.And(self.n >= 0, forall_range(0, self.n, lambda i: z3.And(self.mem(self.at(i)), self.idx(self.at(i)) == i), 'i'),
+                      th.forall_nodes(lambda x: z3.Implies(self.mem(x), z3.And(self.idx(x) >= 0, self.idx(x) < self.n, self.at(self.idx(x)) == x))))
+
+
+class ObservedCompileFinal(CompilerContract):
+    """ObservedCompiler.compile - the rejection clause (final loop) under its own contract.  The main loop is cut at an invariant that pins the
+    NODE set of the compiled net and the two name lists exactly and leaves the EDGES it adds unspecified (they are specified by the bounded stand-in):
+    the clause is then proved for whatever graph the main loop has built."""
+    target = CMF + '::ObservedCompiler.compile'
+    label = 'rejection clause'
+    lits = ('attr_dict', '_observable', '_uses_observed', '_stochastic', 'operation', '?other0')
+    nodes, refs, strs = 3, 8, 2
+    fin = 3
+
+    def setup(self, vc):
+        s = self.cbase(vc)
+        cx, th = s.cx, s.th
+        rank = z3.Function('rank', th.Node, IntS)
+        s.rank = lambda x: rank(x)
+        s.specs = []            # AncSpec of the compiled net as the main loop left it (created at the entry of the final loop)
+        s.topo = None
+
+        def make_observed_copy(node, compiled_net, operation=None):
+            """callee under contract MakeObservedCopy"""
+            if compiled_net is not s.C:
+                raise OutOfSubset('make_observed_copy on another graph')
+            g, h, x = s.C.snap(), cx.H.snap(), node.t
+            vc.oblige('call-pre[make_observed_copy: networkx representation invariant]', graph_wf(th, g, h))
+            t = cx.obsname(x)
+            if vc.branch(g.node(t)):
+                raise program_exception(ValueError('Observed node already exists!'))
+            if operation is None:
+                vc.oblige('call-pre[make_observed_copy: the node is a node of the compiled net]', g.node(x))
+                s.C.add_node(SNodeName(t), **{nxspec.KW: SDict(cx.H, g.nattr(x))})
+            else:
+                s.C.add_node(SNodeName(t), operation=operation)
+            return SNodeName(t)
+        s.cls = ClsProxy(__name__='ObservedCompiler', make_observed_copy=make_observed_copy)
+        return s, (s.cls, s.S, s.C), {}
+
+    def env(self, vc):
+        s = vc._s
+        cx, th = s.cx, s.th
+        nxm = make_nx(cx, s.specs)
+
+        def topological_sort(G):
+            """assumed networkx contract: every node once, parents before children; requires an acyclic graph"""
+            if G is not s.S:
+                raise OutOfSubset('nx.topological_sort of another graph')
+            g = G.snap()
+            vc.oblige('call-pre[nx.topological_sort: the graph is acyclic (rank witness)]',
+                      th.forall_nodes(lambda u, v: z3.Implies(g.edge(u, v), s.rank(u) < s.rank(v)), 2))
+            L = NameSeq.of_set(lambda x: g.node(x), 'topological')
+            vc.assume(topo_listing(th, g, L))
+            s.topo = L
+            return L
+        nxm.topological_sort = staticmethod(topological_sort)
+        return {'nx': nxm, 'observed_name': observed_name_spec(cx), 'args_to_tuple': _Callable('args_to_tuple'), 'dict': dict}
+
+    def requires(self, s):
+        cx, th, S, C, h = s.cx, s.th, s.s0, s.c0, s.h0
+        A = th.klit('attr_dict')
+        return self.crequires(s) + [
+            ('the source net is acyclic (model_ok, C14)', th.forall_nodes(lambda u, v: z3.Implies(S.edge(u, v), s.rank(u) < s.rank(v)), 2)),
+            ("a source node's data dict holds only 'attr_dict' (GraphicalModel.add_node)",
+             th.forall_nodes(lambda x: z3.Implies(S.node(x), th.forall_keys(lambda k: z3.Implies(k != A, z3.Not(h.has(S.nattr(x), k))))))),
+            ("every source edge carries a 'param'", edges_have_param(th, S)),
+            ('the compiled net has exactly the source nodes (post of OutputCompiler)', th.forall_nodes(lambda x: C.node(x) == S.node(x))),
+            ('observed_name is injective on the user nodes and never yields the name of a user node',
+             th.forall_nodes(lambda x, y: z3.Implies(z3.And(S.node(x), S.node(y)), z3.And(cx.obsname(x) != y, z3.Implies(cx.obsname(x) == cx.obsname(y), x == y))), 2))]
+
+    # ---- spec predicates on source nodes
+    def _obsable(self, s):
+        return lambda x: flag(s.th, s.s0, s.h0, x, '_observable')
+
+    def _uses(self, s):
+        return lambda x: z3.And(z3.Not(flag(s.th, s.s0, s.h0, x, '_observable')), flag(s.th, s.s0, s.h0, x, '_uses_observed'))
+
+    def _stoch(self, s):
+        """SPEC: a stochastic node = a source node whose state carries '_stochastic'"""
+        return lambda a: z3.And(s.s0.node(a), st_has(s.th, s.s0, s.h0, a, '_stochastic'))
+
+    def _lists(self, s, l):
+        loc = instrument.locate(self.target)
+        names = [st.targets[0].id for st in loc.node.body if isinstance(st, ast.Assign) and isinstance(st.value, ast.List) and not st.value.elts
+                 and len(st.targets) == 1 and isinstance(st.targets[0], ast.Name)]
+        if len(names) != 2:
+            raise OutOfSubset('ObservedCompiler.compile: expected two `name = []` accumulators')
+        return NameAcc.of(getattr(l, names[0])), NameAcc.of(getattr(l, names[1])), names
+
+    def _main(self, s, l, done):
+        """invariant of the main loop: done(x) = x has been processed"""
+        cx, th, S, C0 = s.cx, s.th, s.s0, s.c0
+        c1, h1 = s.C.snap(), s.H.snap()
+        obsl, usel, _ = self._lists(s, l)
+        ob, us = self._obsable(s), self._uses(s)
+        tw = lambda x: z3.And(S.node(x), z3.Or(ob(x), us(x)))
+        twins = lambda y: th.exists_nodes(lambda x: z3.And(done(x), tw(x), y == cx.obsname(x)))
+        return [('nodes of the compiled net = source nodes + the twins of the processed observable / observed-data-using nodes',
+                 th.forall_nodes(lambda y: c1.node(y) == z3.Or(C0.node(y), twins(y)))),
+                ('the first list holds the processed observable nodes', z3.And(obsl.ok(), th.forall_nodes(lambda x: obsl.mem(x) == z3.And(done(x), S.node(x), ob(x))))),
+                ('the second list holds the processed nodes that use observed data', z3.And(usel.ok(), th.forall_nodes(lambda x: usel.mem(x) == z3.And(done(x), S.node(x), us(x))))),
+                ('networkx representation invariant (compiled)', graph_wf(th, c1, h1)),
+                ('no dict that existed before is written', heap_same_on_old(th, s.h0, h1)), self.source_untouched(s)]
+
+    def _inv0(self, s, l):
+        L, i = s.topo, l.it.index
+        return self._main(s, l, lambda x: z3.And(L.mem(x), L.idx(x) < i))
+
+    def _inv1(self, s, l):
+        it0 = s.rt.loopstate[0]['it']
+        L, i = s.topo, it0.index
+        cur0 = it0.elt(i).t
+        ob, us = self._obsable(s), self._uses(s)
+        return self._main(s, l, lambda x: z3.And(L.mem(x), z3.Or(L.idx(x) < i, x == cur0))) + \
+            [('the current node is a source node that is observable or uses observed data', z3.And(s.s0.node(cur0), L.idx(cur0) == i, i < L.n, z3.Or(ob(cur0), us(cur0))))]
+
+    # ---- the final loops
+    def _anc(self, s):
+        if not s.specs:
+            raise OutOfSubset('ObservedCompiler.compile: final loop reached without its entry snapshot')
+        return s.specs[0]
+
+    def _enter_final(self, s, l):
+        """entry of the final loop: the spec relation anc = ancestors in the compiled net AS THE MAIN LOOP LEFT IT"""
+        c = s.C.snap()
+        del s.specs[:]
+        sp = AncSpec(s.cx, c.edge, 'anc_compiled')
+        s.specs.append(sp)
+        for f in sp.facts():
+            s.rt.vc.assume(f)
+        return dict(c=c)
+
+    def _clean(self, s, usel, sel):
+        """no node u of the list with sel(u) has a stochastic ancestor of its observed twin"""
+        th, cx, anc, bad = s.th, s.cx, self._anc(s).rel, self._stoch(s)
+        return th.forall_nodes(lambda u, a: z3.Implies(z3.And(usel.mem(u), sel(u), anc(a, cx.obsname(u))), z3.Not(bad(a))), 2)
+
+    def _inv2(self, s, l):
+        _, usel, _ = self._lists(s, l)
+        i = l.it.index
+        return [('no stochastic ancestor found for the twins checked so far', self._clean(s, usel, lambda u: usel.idx(u) < i)),
+                ('the compiled net is not modified by the check', z3.BoolVal(s.C.edge is l.entry.c.edge and s.C.node is l.entry.c.node))]
+
+    def _inv3(self, s, l):
+        _, usel, _ = self._lists(s, l)
+        it2 = s.rt.loopstate[2]['it']
+        i = it2.index
+        cur2 = it2.elt(i).t
+        vis, bad = l.it.visited, self._stoch(s)
+        return [('no stochastic ancestor found for the twins checked so far', self._clean(s, usel, lambda u: usel.idx(u) < i)),
+                ('no stochastic node among the visited ancestors of the current twin', s.th.forall_nodes(lambda a: z3.Implies(vis(a), z3.Not(bad(a))))),
+                ('the current node is in the list at the current position', z3.And(usel.mem(cur2), usel.idx(cur2) == i)),
+                ('the compiled net is not modified by the check', z3.BoolVal(s.C.edge is s.rt.loopstate[2]['entry'].c.edge))]
+
+    @property
+    def loops(self):
+        loc = instrument.locate(self.target)
+        names = [st.targets[0].id for st in loc.node.body if isinstance(st, ast.Assign) and isinstance(st.value, ast.List) and not st.value.elts
+                 and len(st.targets) == 1 and isinstance(st.targets[0], ast.Name)]
+        fresh = {n: (lambda why, n=n: NameAcc.fresh(n)) for n in names}
+        L0 = Loop(inv=self._inv0, modifies=lambda s, l: [s.C, s.H], fresh=fresh)
+        L0.rebind = tuple(names)
+        L1 = Loop(inv=self._inv1, modifies=lambda s, l: [s.C, s.H])
+        L2 = Loop(inv=self._inv2, snapshot=self._enter_final)
+        L3 = Loop(inv=self._inv3)
+        return {0: L0, 1: L1, 2: L2, 3: L3}
+
+    def _exists_bad(self, s):
+        """SPEC: a stochastic node is an ancestor (in the compiled net built by the main loop) of the observed twin of a node that uses observed data"""
+        th, cx, S = s.th, s.cx, s.s0
+        us, bad = self._uses(s), self._stoch(s)
+        if not s.specs:
+            return None
+        anc = s.specs[0].rel
+        return th.exists_nodes(lambda u, a: z3.And(S.node(u), us(u), anc(a, cx.obsname(u)), bad(a)), 2)
+
+    def raises(self, s):
+        e = self._exists_bad(s)
+        return {'ValueError': e if e is not None else z3.BoolVal(False)}
+
+    def iff_raises(self, s):
+        return [('normal return only if no stochastic node is an ancestor of a used observed twin', z3.Not(self._exists_bad(s)))]
+
+    def ensures(self, s, result):
+        return [('returns the compiled net', z3.BoolVal(result is s.C)), self.source_untouched(s)]
+
+
+class ObservedCompileWiring(ObservedCompileFinal):
+    """ObservedCompiler.compile - the whole function: nodes, EDGES and attributes of the observed twins (order-dependent invariant: the parents of a node
+    come earlier in nx.topological_sort order, so `parent in observable` <=> the parent is observable)."""
+    label = 'twin wiring'
+    lits = ('attr_dict', '_observable', '_uses_observed', '_stochastic', 'operation', 'output', '?other0')
+    nodes, refs, strs = 3, 8, 2
+
+    def setup(self, vc):
+        s, a, k = ObservedCompileFinal.setup(self, vc)
+        un = z3.Function('unobs', s.th.Node, s.th.Node)        # ghost inverse of observed_name on the user nodes
+        s.unobs = lambda y: un(y)
+        return s, a, k
+
+    def requires(self, s):
+        cx, th, S, C, h = s.cx, s.th, s.s0, s.c0, s.h0
+        return ObservedCompileFinal.requires(self, s) + [
+            ('ghost: unobs inverts observed_name on the user nodes (exists: observed_name is injective there)', th.forall_nodes(lambda x: z3.Implies(S.node(x), s.unobs(cx.obsname(x)) == x))),
+            ('the compiled net has exactly the source edges (post of OutputCompiler)', th.forall_nodes(lambda u, v: C.edge(u, v) == S.edge(u, v), 2))]
+
+    def _st(self, s):
+        return lambda x: flag(s.th, s.s0, s.h0, x, '_stochastic')
+
+    def _wiring(self, s, doneT, proc):
+        """SPEC of the compiled net: doneT(x): the twin of x exists (with its tuple edge); proc(x, p): the edge for parent p into the twin of x exists"""
+        cx, th, S, C0, h0 = s.cx, s.th, s.s0, s.c0, s.h0
+        c1, h1 = s.C.snap(), s.H.snap()
+        ob, us, st, obs, un = self._obsable(s), self._uses(s), self._st(s), cx.obsname, s.unobs
+        tw = lambda x: z3.And(S.node(x), z3.Or(ob(x), us(x)))
+        T = lambda u, v: z3.And(S.node(v), doneT(v), us(v), u == obs(v))
+
+        def W(u, v):
+            X, P = un(v), un(u)
+            return z3.And(S.node(X), obs(X) == v, tw(X), z3.Not(st(X)),
+                          z3.Or(z3.And(S.node(u), S.edge(u, X), z3.Not(ob(u)), proc(X, u)), z3.And(S.node(P), obs(P) == u, S.edge(P, X), ob(P), proc(X, P))))
+        src = lambda u: z3.If(S.node(u), u, un(u))              # the user parent an edge into a twin comes from
+        OBS = th.Param.pname(cx.str_lit('observed'))
+        OP = th.klit('operation')
+        d = lambda x: c1.nattr(obs(x))
+        return [('edges = source edges + (tuple twin -> node that uses observed data) + (parent or its twin -> twin of every non-stochastic twinned node)',
+                 th.forall_nodes(lambda u, v: c1.edge(u, v) == z3.Or(C0.edge(u, v), T(u, v), W(u, v)), 2)),
+                ("params: 'observed' on the tuple edges, the param of the source edge on the twin edges, unchanged elsewhere",
+                 th.forall_nodes(lambda u, v: c1.param(u, v) == z3.If(T(u, v), OBS, z3.If(W(u, v), S.param(src(u), un(v)), C0.param(u, v))), 2)),
+                ('the twin of an observable node holds a copy of its compiled attributes (same operation / output)',
+                 th.forall_nodes(lambda x: z3.Implies(z3.And(S.node(x), doneT(x), ob(x)),
+                                                      th.forall_keys(lambda k: z3.And(h1.has(d(x), k) == h0.has(C0.nattr(x), k), h1.val(d(x), k) == h0.val(C0.nattr(x), k)))))),
+                ('the twin of a node that uses observed data holds exactly the operation args_to_tuple',
+                 th.forall_nodes(lambda x: z3.Implies(z3.And(S.node(x), doneT(x), us(x)),
+                                                      z3.And(h1.has(d(x), OP), h1.val(d(x), OP) == th.opaque(s.rt.vc.g['args_to_tuple']),
+                                                             th.forall_keys(lambda k: z3.Implies(k != OP, z3.Not(h1.has(d(x), k)))))))),
+                ('user nodes keep their data dicts', th.forall_nodes(lambda x: z3.Implies(C0.node(x), c1.nattr(x) == C0.nattr(x))))]
+
+    def _inv0(self, s, l):
+        L, i = s.topo, l.it.index
+        done = lambda x: z3.And(L.mem(x), L.idx(x) < i)
+        return ObservedCompileFinal._inv0(self, s, l) + self._wiring(s, done, lambda x, p: done(x))
+
+    def _inv1(self, s, l):
+        it0 = s.rt.loopstate[0]['it']
+        L, i = s.topo, it0.index
+        cur0 = it0.elt(i).t
+        done = lambda x: z3.And(L.mem(x), L.idx(x) < i)
+        vis = l.it.visited
+        return ObservedCompileFinal._inv1(self, s, l) + \
+            [('the current node is not stochastic', z3.Not(self._st(s)(cur0)))] + \
+            self._wiring(s, lambda x: z3.Or(done(x), x == cur0), lambda x, p: z3.Or(done(x), z3.And(x == cur0, vis(p))))
+
+    def ensures(self, s, result):
+        S = s.s0
+        return ObservedCompileFinal.ensures(self, s, result) + self._main(s, s.rt.loopstate[2]['head'], lambda x: S.node(x))[:1] + \
+            self._wiring(s, lambda x: S.node(x), lambda x, p: S.node(x))
+
+
 # ---------------------------------------------------------------------- loaders
 class _Opaque:
     def __init__(self, what):
@@ -1496,6 +1803,18 @@ class ExecGraph(CGraph):
         return s.cache
 
 
+class Witness:
+    """ghost Skolem function Node -> Node (which needed node a collected ancestor belongs to)"""
+
+    def __init__(self, cx):
+        self.cx = cx
+        self.f = lambda x: x
+
+    def _vc_havoc(self, name):
+        w = self.cx.vc.fresh_fn('witness', self.cx.th.Node, self.cx.th.Node)
+        self.f = lambda x: w(x)
+
+
 class GetExecutionOrder(C03Contract):
     target = EXF + '::Executor.get_execution_order'
     comprehensions = True
@@ -1508,6 +1827,7 @@ class GetExecutionOrder(C03Contract):
         cx, th = s.cx, s.th
         s.anc = AncSpec(cx, dep_edge(th, s.g0, s.h0), 'anc_dep')
         s.cache = None
+        s.wit = Witness(cx)
         rank = z3.Function('rank', th.Node, IntS)
         s.rank = lambda x: rank(x)
         s.cls = ClsProxy(__name__='Executor')
@@ -1563,8 +1883,16 @@ class GetExecutionOrder(C03Contract):
         acc = [v for v in vars(l).values() if isinstance(v, SNodeSet)]
         if len(acc) != 1 or N is None:
             raise OutOfSubset('get_execution_order: expected one node set among the locals of the second loop')
-        return [('the set holds needed + the ancestors (in the dependency graph) of the needed nodes visited so far',
-                 th.forall_nodes(lambda x: acc[0].mem(x) == z3.Or(N.mem(x), th.exists_nodes(lambda y: z3.And(N.mem(y), N.idx(y) < i, s.anc.rel(x, y))))))]
+        w = s.wit.f
+        return [('the set holds needed + the ancestors (in the dependency graph) of the needed nodes visited so far (ghost witness w: which needed node)',
+                 z3.And(th.forall_nodes(lambda x: z3.Implies(acc[0].mem(x), z3.Or(N.mem(x), z3.And(N.mem(w(x)), N.idx(w(x)) < i, s.anc.rel(x, w(x)))))),
+                        th.forall_nodes(lambda x: z3.Implies(N.mem(x), acc[0].mem(x))),
+                        th.forall_nodes(lambda x, y: z3.Implies(z3.And(N.mem(y), N.idx(y) < i, s.anc.rel(x, y)), acc[0].mem(x)), 2)))]
+
+    def _ghost1(self, s, l0, l1):
+        w0, cur_ = s.wit.f, l0.it.elt(l0.h.i).t
+        head_mem = l0.h.mem
+        s.wit.f = lambda x: z3.If(z3.And(s.anc.rel(x, cur_), z3.Not(head_mem(x))), cur_, w0(x))
 
     @property
     def loops(self):
@@ -1573,7 +1901,8 @@ class GetExecutionOrder(C03Contract):
             d1 = self._dep(s).snap()
             s.rt.vc.cut('the dependency graph built by the code = G minus the nodes that have an output',
                         s.th.forall_nodes(lambda u, v: d1.edge(u, v) == s.anc.E(u, v), 2))
-        L1 = Loop(inv=self._inv1, fresh={}, modifies=lambda s, l: [v for v in vars(l).values() if isinstance(v, SNodeSet)], on_head=dep_is_spec)
+        L1 = Loop(inv=self._inv1, fresh={}, modifies=lambda s, l: [v for v in vars(l).values() if isinstance(v, SNodeSet)] + [s.wit], on_head=dep_is_spec,
+                  ghost_step=self._ghost1, at_head=lambda s, l: dict(i=l.it.index, mem=[v for v in vars(l).values() if isinstance(v, SNodeSet)][0].mem))
         return {0: Loop(inv=self._inv0, modifies=lambda s, l: [self._dep(s)], snapshot=lambda s, l: dict(d=self._dep(s).snap(), h=s.H.snap())),
                 1: L1}
 
@@ -1602,6 +1931,10 @@ class GetExecutionOrder(C03Contract):
         if '<needed>' not in s.cache.writes:
             return [('cache hit: returns the stored list', z3.BoolVal(result is s.cache.stored0)), ('nothing is cached', z3.BoolVal(not s.cache.writes)), frame]
         fl = s.rt.vc.libcalls.get('filtered-list')
+        # explicit lemma instance (proved here as its own obligation, then used): transitivity of anc at the ghost witness
+        w = s.wit.f
+        s.rt.vc.cut('lemma instance: a dependency parent of an ancestor of w is an ancestor of w',
+                    th.forall_nodes(lambda p, x: z3.Implies(z3.And(s.anc.E(p, x), s.anc.rel(x, w(x))), s.anc.rel(p, w(x))), 2))
         out = order_facts(cx, g, h, result, s.anc.rel)
         out.append(('the result is a sub-list of the (cached) topological sort order: the order of execution is fixed',
                     z3.BoolVal(bool(fl) and fl[-1]['out'] is result and fl[-1]['src'] is s.cache.sort)))
@@ -1610,16 +1943,182 @@ class GetExecutionOrder(C03Contract):
         return out
 
 
-CONTRACTS = [Run(), Execute(), GetExecutionOrder(), OutputCompile(), AdditionalNodesCompile(), NbunchAncestors(), ReduceCompile(),
-             MakeObservedCopy('copy'), MakeObservedCopy('operation'), ObservedLoad(), AdditionalNodesLoad()]
+# ====================================================================== ghost lemmas: exec_sem
+def params_distinct_at(th, g, x):
+    """model_ok (C14): the positional params on the in-edges of x are pairwise distinct"""
+    return th.forall_nodes(lambda p, q: z3.Implies(z3.And(pos_edge(th, g, p, x), pos_edge(th, g, q, x), p != q), pint(th, g, p, x) != pint(th, g, q, x)), 2)
 
-TRUSTED_BASE = []
-ASSUMPTIONS = []
-NOT_PROVED = []
+
+def same_content(cx, a, b):
+    """SPEC: two call packs hold the same positional and keyword arguments"""
+    th = cx.th
+    return z3.And(cx.plen(a) == cx.plen(b), forall_range(0, cx.plen(a), lambda i: cx.parg(a, i) == cx.parg(b, i), 'i'),
+                  th.forall_strs(lambda k: z3.And(cx.kdom(a, k) == cx.kdom(b, k), z3.Implies(cx.kdom(a, k), cx.kval(a, k) == cx.kval(b, k)))))
+
+
+class LemmaSetup(C03Contract):
+    lits = ('?other0',)
+    nodes, refs, strs = 3, 2, 2
+    fin = 3
+
+    def lbase(self, vc):
+        s = self.base(vc)
+        cx, th = s.cx, s.th
+        s.x = z3.Const('x', th.Node)
+        out = z3.Function('out', th.Node, th.Val)
+        s.out = lambda p: out(p)
+        s.pk = [z3.Const('pk1', cx.Pack), z3.Const('pk2', cx.Pack)]
+        s.pos, s.own = [], []
+        for j in (1, 2):
+            pf, of = z3.Function('pos%d' % j, th.Node, IntS), z3.Function('own%d' % j, IntS, th.Node)
+            s.pos.append(lambda p, pf=pf: pf(p))
+            s.own.append(lambda i, of=of: of(i))
+        vc.fin_bounds.extend([cx.plen(s.pk[0]), cx.plen(s.pk[1])])
+        return s
+
+
+class LemmaPackUnique(LemmaSetup):
+    target = '@verif/lemmas/c03_lemmas.py::lemma_pack_unique'
+
+    def setup(self, vc):
+        s = self.lbase(vc)
+        return s, (SInt(s.cx.plen(s.pk[0])),), {}
+
+    def requires(self, s):
+        cx, th, g = s.cx, s.th, s.g0
+        r = [('model_ok: positional params pairwise distinct', params_distinct_at(th, g, s.x))]
+        for j in (0, 1):
+            r += args_of(cx, g, s.out, s.x, s.pk[j], s.pos[j], s.own[j])
+        return r
+
+    def _inv(self, s, l):
+        cx, th, g = s.cx, s.th, s.g0
+        k = l.k.t if hasattr(l.k, 't') else z3.IntVal(l.k)
+        p1, p2 = s.pos
+        return [('0 <= k <= both lengths', z3.And(k >= 0, k <= cx.plen(s.pk[0]), k <= cx.plen(s.pk[1]))),
+                ('the two position witnesses agree below k',
+                 th.forall_nodes(lambda p: z3.Implies(pos_edge(th, g, p, s.x), z3.And(z3.Implies(p1(p) < k, p2(p) == p1(p)), z3.Implies(p2(p) < k, p1(p) == p2(p))))))]
+
+    loops = {}
+
+    @property
+    def loops(self):
+        return {0: Loop(inv=self._inv)}
+
+    def ensures(self, s, result):
+        return [('the two packs have the same content', same_content(s.cx, s.pk[0], s.pk[1]))]
+
+
+class LemmaExecSemStep(LemmaSetup):
+    target = '@verif/lemmas/c03_lemmas.py::lemma_exec_sem_step'
+    label = 'exec_sem'
+
+    def setup(self, vc):
+        s = self.lbase(vc)
+        th = s.th
+        sem = z3.Function('sem', th.Node, th.Val)
+        s.sem = lambda p: sem(p)
+        s.op, s.out_x = z3.Const('op', th.Val), z3.Const('out_x', th.Val)
+        return s, (), {}
+
+    def env(self, vc):
+        s = vc._s
+        cx, th, g = s.cx, s.th, s.g0
+
+        def use_pack_unique():
+            """lemma instance, proved by LemmaPackUnique: call-pre = its requires (for the spec pack: args_of w.r.t. the outputs, by the IH)"""
+            vc.oblige('call-pre[pack_unique: positional params pairwise distinct]', params_distinct_at(th, g, s.x))
+            for j in (0, 1):
+                for lbl, f in args_of(cx, g, s.out, s.x, s.pk[j], s.pos[j], s.own[j]):
+                    vc.oblige('call-pre[pack_unique: pack %d: %s]' % (j + 1, lbl), f)
+            vc.assume(same_content(cx, s.pk[0], s.pk[1]))
+
+        def use_pack_extensionality():
+            """ASSUMED (definition of the sort Pack): a call pack is determined by its content"""
+            vc.assume(z3.Implies(same_content(cx, s.pk[0], s.pk[1]), s.pk[0] == s.pk[1]))
+        return {'use_pack_unique': use_pack_unique, 'use_pack_extensionality': use_pack_extensionality}
+
+    def requires(self, s):
+        cx, th, g = s.cx, s.th, s.g0
+        return [('IH: every parent of x already carries its dataflow meaning', th.forall_nodes(lambda p: z3.Implies(g.edge(p, s.x), s.out(p) == s.sem(p)))),
+                ('model_ok: positional params pairwise distinct', params_distinct_at(th, g, s.x)),
+                ('post of Executor.execute for x: output = apply(operation, call pack)', s.out_x == cx.apply(s.op, s.pk[0]))] + \
+            args_of(cx, g, s.out, s.x, s.pk[0], s.pos[0], s.own[0]) + \
+            [('defining equation of sem at a node with an operation: sem(x) = apply(op_x, pack of the parents\' meanings)', s.sem(s.x) == cx.apply(s.op, s.pk[1]))] + \
+            args_of(cx, g, s.sem, s.x, s.pk[1], s.pos[1], s.own[1])
+
+    def ensures(self, s, result):
+        return [('exec_sem step: the output of x equals its dataflow meaning sem(x)', s.out_x == s.sem(s.x))]
+
+
+CONTRACTS = [Run(), Execute(), GetExecutionOrder(), OutputCompile(), AdditionalNodesCompile(), NbunchAncestors(), ReduceCompile(),
+             MakeObservedCopy('copy'), MakeObservedCopy('operation'), ObservedCompileFinal(), ObservedCompileWiring(), ObservedLoad(), AdditionalNodesLoad(),
+             LemmaPackUnique(), LemmaExecSemStep()]
+
+TRUSTED_BASE = ['pyvc engine: proxies, path forking, loop cutting, instrumenter rewrites D1-D2, T1-T6 (+ T6d dict comprehension, T6g generator expression as list comprehension)',
+                'pyvc.nxspec: model of networkx.DiGraph / python dict heap / set / list (sorted = ordered permutation); sanity-tested on the installed networkx every run',
+                'python call semantics f(*lst, **dct): the callee receives exactly the list elements in order and the dict entries as keywords (modelled by one marker argument; sanity-tested)',
+                'nx.ancestors(G, x) = exactly the nodes with a non-empty path to x, NetworkXError for x not in G; nx.DiGraph(G.edges) has the edges of G, no edge data and NO isolated node; '
+                'nx.topological_sort lists every node once, parents first (sanity-tested)',
+                'nx_constant_topological_sort (elfi/executor.py) returns every node once, parents before children (C02 covers it; assumed here as a callee contract)',
+                'utils.observed_name is injective on user names and its results are not user names; distinct literal node / parameter names denote distinct nodes / names',
+                'PoolLoader (C05) and RandomStateCompiler / RandomStateLoader (C02) are under the contracts of their own properties']
+ASSUMPTIONS = ['A-LOG: logging calls have no effect',
+               'operations are total python functions (apply is a function of the operation and the call pack; an exception raised by an operation is re-raised by execute and not modelled)',
+               'loaded nets are acyclic, every edge carries a param, the keyword names on the in-edges of one node are pairwise distinct (model_ok, C14; the compiler adds the '
+               "names batch_size / meta / random_state / observed, which must not clash with a user's keyword parent)",
+               "a source node's data dict holds only 'attr_dict' (GraphicalModel.add_node), the flag '_stochastic' is tested by presence",
+               'A-CACHE: the executor cache passed in graph[_executor_cache] is arbitrary except that a stored sort_order is a topological listing of the net; that a list stored '
+               'under a `needed` key by an EARLIER batch is right for the CURRENT net (same outputs-with-operation => same supplied values) is a cross-batch invariant that is not proved',
+               '_batch_size / _meta / _random_state are reserved names (no user node is called so)']
+NOT_PROVED = ["'The observed twin of an observable node is its given observation, or else its operation applied to its parents' observed twins, a discrepancy node additionally "
+              "receives the tuple of its parents' observed twins' - the edges ObservedCompiler.compile adds in its main loop are NOT specified by an SMT contract (its node set, "
+              'make_observed_copy, ObservedLoader and the rejection clause are); this clause is covered by the bounded pipeline harness only',
+              "composition: 'for any model graph, every requested node output equals sem(G, x)' - proved per function (compiler passes, loaders, execution order, execute, _run) and for "
+              'one induction step (lemma exec_sem); the composition of the five compiler passes and four loaders into client.compile / load_data is bounded only',
+              "'rejected instead of being evaluated' is decided on the compiled graph (a stochastic user node is an ancestor of the observed twin of a node that uses observed data); the twin of "
+              'an UNOBSERVED stochastic observable node (a Simulator without observed data) has no parents in the compiled net, is not seen by that check and is evaluated without inputs '
+              '(known finding C03-K1, bounded signature c03:unobserved-stochastic-twin-evaluated)',
+              'cache hits of Executor.get_execution_order (see A-CACHE); the bounded harness uses a fresh context per run and never hits the cache']
 
 
 def sanity():
-    return nxspec.sanity()
+    out = list(nxspec.sanity())
+    import networkx as nx
+    G = nx.DiGraph()
+    G.add_edges_from([('a', 'b'), ('b', 'c'), ('x', 'c')])
+    G.add_node('iso')
+    out.append(('nx.ancestors = nodes with a non-empty path', nx.ancestors(G, 'c') == {'a', 'b', 'x'} and nx.ancestors(G, 'a') == set()))
+    try:
+        nx.ancestors(G, 'zz')
+        ok = False
+    except nx.NetworkXError:
+        ok = True
+    out.append(('nx.ancestors of a missing node raises NetworkXError', ok))
+    G['a']['b']['param'] = 0
+    D = nx.DiGraph(G.edges)
+    out.append(('nx.DiGraph(G.edges): same edges, no edge data, no isolated node', set(D.edges) == set(G.edges) and 'iso' not in D and D['a']['b'] == {}))
+    D.add_nodes_from(G.nodes)
+    out.append(('add_nodes_from(G.nodes) adds the missing nodes and keeps the edges', 'iso' in D and set(D.edges) == set(G.edges)))
+    ts = list(nx.topological_sort(G))
+    out.append(('nx.topological_sort: every node once, parents first', sorted(ts) == sorted(G.nodes) and all(ts.index(u) < ts.index(v) for u, v in G.edges)))
+    got = []
+
+    def f(*a, **k):
+        got.append((a, k))
+    f(*[1, 2], **{'x': 3})
+    out.append(('f(*lst, **dct) passes the elements in order and the entries as keywords', got == [((1, 2), {'x': 3})]))
+    out.append(('dict.keys() >= set is the superset test', ({'a': 1, 'b': 2}.keys() >= {'a', 'b'}) and not ({'a': 1}.keys() >= {'a', 'b'})))
+    out.append(('dict.get of an absent key and of a stored None agree', {}.get('k') is None and {'k': None}.get('k') is None))
+    from pyvc import native
+    try:
+        u = native.load_file_module('elfi/utils.py')
+        names = ['a', 'b', '_a', 'a_observed', '_a_observed']
+        ok = len({u.observed_name(n) for n in names}) == len(names) and u.observed_name('a') == '_a_observed' and u.args_to_tuple(1, 2) == (1, 2)
+    except Exception:
+        ok = False
+    out.append(('observed_name is injective (format _<name>_observed); args_to_tuple returns its arguments', ok))
+    return out
 
 
 def bounded(tier, seed):
@@ -1627,8 +2126,41 @@ def bounded(tier, seed):
     return [b.run(tier, seed)]
 
 
+_cache = {}
+
+
 def replay_refuted(cname, rf):
-    return dict(found=False)
+    """a refuted obligation: look for a failing native input of the executable property (bounded/c03.py is the replay vehicle; the counter-model itself
+    is a symbolic graph over the finitised universe)"""
+    from bounded import c03 as b
+    from pyvc import native
+    elfi = native.import_elfi()
+    known = (b.SIG_TWIN,)
+
+    def fixed(inp, sig):
+        f = b.check_case(elfi, inp, inp.get('seed'))
+        if f and f['signature'] == sig:
+            return dict(found=True, input=inp, observed=f['what'], signature=f['signature'])
+        return None
+    if 'get_execution_order' in cname and 'NetworkXError' in rf.get('kind', ''):
+        r = fixed(b.F15_INPUT, b.SIG_F15)
+        if r:
+            return r
+    if 'ObservedCompiler.compile' in cname:
+        r = fixed(b.F10_INPUT, b.SIG_F10)
+        if r:
+            return r
+    if 'run' not in _cache:
+        _cache['run'] = b.run('quick', 0)
+    fs = [f for f in _cache['run']['failures'] if f['signature'] not in known]
+    pref = {'get_execution_order': ['c03:calls', b.SIG_F15, 'c03:exception'], 'ObservedCompiler': [b.SIG_F10, 'c03:value'], '_run': ['c03:value'],
+            'Loader': ['c03:value', 'c03:exception']}
+    want = [sg for k, sgs in pref.items() if k in cname for sg in sgs]
+    fs.sort(key=lambda f: (want.index(f['signature']) if f['signature'] in want else len(want)))
+    if fs:
+        f = fs[0]
+        return dict(found=True, input=f['input'], observed=f['what'], signature=f['signature'])
+    return dict(found=False, searched=_cache['run']['bound'], cases=_cache['run']['cases'])
 
 
 def replay_input(inp):
